@@ -334,3 +334,33 @@ func verifH_C08_untyped_header() {
 	verifKnown("C08-untyped-header-schema-present-value-rejected", false)
 	verifReach("end")
 }
+
+//verif:harness id=C08 tier=quick,thorough witness=end bounds="response header names are case-insensitive: a required header declared as x-rate-limit / X-Rate-Limit / X-RATE-LIMIT, defined by schema (integer) or by content (application/json, integer) x response carrying it (under net/http's canonical key) with value 5 / x, or not at all: missing is rejected, present is accepted when the schema form accepts the value (by content only presence is checked)"
+func verifH_C08_header_names() {
+	d := "d"
+	name := []string{"x-rate-limit", "X-Rate-Limit", "X-RATE-LIMIT"}[verifChoose("name", 3)]
+	intS := &openapi3.SchemaRef{Value: &openapi3.Schema{Type: &openapi3.Types{"integer"}}}
+	h := &openapi3.Header{Parameter: openapi3.Parameter{Required: true}}
+	byContent := verifChoose("byContent", 2) == 1
+	if byContent {
+		h.Content = openapi3.Content{"application/json": &openapi3.MediaType{Schema: intS}}
+	} else {
+		h.Schema = intS
+	}
+	resp := &openapi3.Response{Description: &d, Headers: openapi3.Headers{name: &openapi3.HeaderRef{Value: h}}}
+	resps := openapi3.NewResponsesWithCapacity(1)
+	resps.Set("200", &openapi3.ResponseRef{Value: resp})
+	op := &openapi3.Operation{Responses: resps}
+	hdr := http.Header{}
+	presence := verifChoose("presence", 3) // 0 absent, 1 "5", 2 "x"
+	switch presence {
+	case 1:
+		hdr.Set("x-rate-limit", "5")
+	case 2:
+		hdr.Set("x-rate-limit", "x")
+	}
+	err := ValidateResponse(context.Background(), verifRespInput(op, "GET", 200, hdr, nil, &Options{}))
+	want := presence == 1 || (presence == 2 && byContent)
+	verifAssert((err == nil) == want, "C08 header names: a declared response header is found whatever the spelling of its name in the document")
+	verifReach("end")
+}
